@@ -5,7 +5,7 @@ import common
 import machine
 
 ID = "C03"
-LEAN_MODULES = ["QProps.C03", "QProps.C03x", "QProps.C05h"]
+LEAN_MODULES = ["QProps.C03", "QProps.C03x", "QProps.C05h", "QProps.C03g"]
 THEOREMS = [
     "MM.fail_restores",
     "MM.fail_restores_cell",
@@ -20,6 +20,9 @@ THEOREMS = [
     "MM.inv_trial",
     "MM.history_restores",
     "MM.gc_mixed_history",
+    "MM.inv_trial_cell",
+    "MM.inv_trial_ham",
+    "MM.history_restores_any",
     "MM.plain_two_deletions_not_restored",
     "MM.reinsert_delete",
     "MM.delete_after_insert",
